@@ -233,7 +233,7 @@ def evaluate__mod_operator(self: XPathToken, context: ta.ContextType = None) \
         if isinstance(op1, int) and isinstance(op2, int):
             return abs(op1) % abs(op2) if op1 >= 0 else -(abs(op1) % abs(op2))
         elif isinstance(op2, float) and math.isinf(op2) and not math.isinf(op1) and op1 != 0:
-            return promoted_float(op1, op2, op1) if self.parser.version != '1.0' else math.nan
+            return promoted_float(op1, op2, op1)
         result = op1 % op2  # type: ignore[operator]
         if isinstance(result, float) and not math.isnan(result):
             # Python's float modulo is floored, XPath requires the truncating remainder
